@@ -92,8 +92,8 @@ PROPS = {
         "level": "exploration",
         "quick": cfg(16, 25),
         "thorough": cfg(16, 400),
-        "rule": "sets of 0-8 abstract filters of every kind (positive/negative/marker/event), enabled or not, negated or not, overlapping and duplicated, against streams of 0-500 messages; filter_as_streams (forwarded messages, passed+filtered) and the set matcher match_filters built through StreamContext::from (stream and query) incl. filtered_msgs after feeding process_stream_new_msgs in random batches; every 16th case additionally through ExportPlugin::from_json -> plugins_process_msgs -> exported file (one info message followed by exactly the kept messages in order, byte compared); oracle = spec_matches + keep rule. Non-trivial = >=1 enabled positive and >=1 enabled negative filter and both outcomes observed; distinct = multiset of (kind, enabled, negated).",
-        "floors": {"quick": {"evaluations": 10000, "distinct_nontrivial": 500, "agreement_checks": 300000, "export_plugin_files_compared": 800}, "thorough": {"evaluations": 500000, "distinct_nontrivial": 1000}},
+        "rule": "sets of 0-8 abstract filters of every kind (positive/negative/marker/event), enabled or not, negated or not, overlapping and duplicated, against streams of 0-500 messages; filter_as_streams (forwarded messages, passed+filtered) and the set matcher match_filters built through StreamContext::from (stream and query) incl. filtered_msgs after feeding process_stream_new_msgs in random batches; every 16th case additionally through ExportPlugin::from_json -> plugins_process_msgs -> exported file (one info message followed by exactly the kept messages in order, byte compared); oracle = spec_matches + keep rule. (d) every 16th case the Export plugin with `lifecyclesToKeep`: lifecycles from the real detector on a clean scenario, one of them named by ECU and a 1 us window around its final start/end, 0-3 user filters (negative filters often with their own lifecycle criterion: none, empty, the target, random ids): exported = messages of that lifecycle that the filter set keeps, in order, after one info message. Non-trivial = >=1 enabled positive and >=1 enabled negative filter and both outcomes observed; distinct = multiset of (kind, enabled, negated).",
+        "floors": {"quick": {"evaluations": 10000, "distinct_nontrivial": 500, "agreement_checks": 300000, "export_plugin_files_compared": 800, "export_lifecycles_to_keep_files_compared": 800}, "thorough": {"evaluations": 500000, "distinct_nontrivial": 1000}},
         "assumptions": ["disabled filters reach match_filters only through the front doors that drop them (documented precondition of that function)"],
     },
     "C13": {
